@@ -92,7 +92,8 @@ _RE_DEPTH = re.compile(r"The depth of the complete state graph search is (\d+)")
 
 
 def _metadir(tag):
-    d = os.path.join(OUT, "tlc", tag)
+    # per-property directories: two checks may share a cfg name (C04/C10) and run side by side
+    d = os.path.join(OUT, "tlc", os.environ.get("QXV_PROP", "x") + "-" + tag)
     shutil.rmtree(d, ignore_errors=True)
     os.makedirs(d, exist_ok=True)
     return d
